@@ -249,7 +249,8 @@ def instances(tier):
         if s <= 2 or first_row_zero:
             out.append(dict(id="%s-param-change-scalar" % n, cls=n, kind="param_change", shape=[1], budget=bs))
             # the same object takes a second step of ANOTHER size (any two sizes of the same sign, however close or tiny)
-            out.append(dict(id="%s-step-size-change-scalar" % n, cls=n, kind="param_change", shape=[1], step_change=True, budget=bs))
+            if thorough or s <= 1 or first_row_zero:        # (2-stage classes with a full first row: tens of seconds of nonlinear solving each, thorough tier)
+                out.append(dict(id="%s-step-size-change-scalar" % n, cls=n, kind="param_change", shape=[1], step_change=True, budget=bs))
     return out
 
 
